@@ -15,6 +15,7 @@
     Python `list`                      -> `List α`  (by value: the translator rejects aliasing patterns)
     Python `dict` (3.7+)               -> `List (κ × α)` in insertion order, keys pairwise distinct
     Python `tuple`                     -> product
+    "a list of such values, or a non-list" -> `Py.Tree α`
     Python exceptions                  -> `Except Py.Exc`
 -/
 namespace Py
@@ -35,6 +36,25 @@ abbrev Str := List Char
 structure Obj where
   tag : Nat := 0
   deriving DecidableEq, Repr, Inhabited
+
+/-- a Python value that is either a list (of such values) or something that is not a list: what code that
+    tests `isinstance(x, list)` distinguishes -/
+inductive Tree (α : Type) where
+  | leaf (a : α)
+  | list (xs : List (Tree α))
+
+/-- `for x in xs: body` where the body may raise (the list is evaluated once and iterated by value) -/
+def forIn {α σ : Type} : List α → σ → (α → σ → Except Exc σ) → Except Exc σ
+  | [], v, _ => .ok v
+  | x :: xs, v, f =>
+    match f x v with
+    | .error e => .error e
+    | .ok v' => forIn xs v' f
+
+/-- `for x in xs: body` where the body cannot raise -/
+def forInPure {α σ : Type} : List α → σ → (α → σ → σ) → σ
+  | [], v, _ => v
+  | x :: xs, v, f => forInPure xs (f x v) f
 
 /-! ### sequences -/
 
